@@ -79,6 +79,22 @@ pub fn c20(c: &Case) {
     for dup in [1usize, 2] { let mut s = base.clone(); s.duplicate = dup; n += 1; check(&s, &mut bad, if dup == 1 { "identical second copy" } else { "conflicting second copy" }); }
     for j in 0..6 { let mut s = base.clone(); s.drop = Some(j); n += 1; check(&s, &mut bad, &format!("joint {} missing", j + 1)); }
     { let mut s = base.clone(); s.limits = [Some((-170.0, 170.0, true)), Some((-90.5, 45.25, true)), None, Some((-3.0, 2.0, false)), None, Some((-360.0, 360.0, true))]; n += 1; check(&s, &mut bad, "degrees syntax and joints without limits"); }
+    // explicit joint-name list with names that are not of the joint<N> form: used exactly as given, a full six-axis description stays six-axis with its axis signs and limits
+    {
+        let x = urdf(&base);
+        let mut t = x.clone(); for nn in 1..=6 { t = t.replace(&format!("name=\"{}\"", name(base.deco, nn)), &format!("name=\"axis_{}\"", nn)); }
+        let names = ["axis_1", "axis_2", "axis_3", "axis_4", "axis_5", "axis_6"]; n += 1;
+        match std::panic::catch_unwind(|| from_urdf(t.clone(), &Some(names))) {
+            Err(_) => bad.push("explicit joint names: PANIC".into()),
+            Ok(Err(e)) => bad.push(format!("explicit joint names axis_1..axis_6: extraction failed: {:?}", e)),
+            Ok(Ok(u)) => {
+                if u.dof != 6 { bad.push(format!("explicit joint names axis_1..axis_6: dof {} for a six-joint description", u.dof)); }
+                for j in 0..6 { if u.sign_corrections[j] as i32 != base.signs[j] { bad.push(format!("explicit joint names: sign correction of joint {} is {} (axis sign {})", j + 1, u.sign_corrections[j], base.signs[j])); break; } }
+                for j in 0..6 { if let Some((lo, hi, false)) = base.limits[j] { if (u.from[j] - lo).abs() > 1e-12 || (u.to[j] - hi).abs() > 1e-12 { bad.push(format!("explicit joint names: limits of joint {} extracted as {}..{}", j + 1, u.from[j], u.to[j])); break; } } }
+                let got = [u.a1, u.a2, u.b, u.c1, u.c2, u.c3, u.c4]; for k in 0..7 { if (got[k] - base.p[k]).abs() > 1e-12 { bad.push(format!("explicit joint names: parameter {} extracted as {}", k, got[k])); break; } }
+            }
+        }
+    }
     // an origin with four numbers (or two) is not a position: an error value
     for extra in [" 0.5", ""] { let x = urdf(&base); let t = if extra.is_empty() { x.replacen("xyz=\"0.15 0 0\"", "xyz=\"0.15 0\"", 1) } else { x.replacen("xyz=\"0.15 0 0\"", "xyz=\"0.15 0 0 0.5\"", 1) }; n += 1;
         if t == x { bad.push("test construction: origin of joint 2 not found in the generated text".into()); }
